@@ -1436,3 +1436,344 @@ Proof.
 Qed.
 
 End ModelBlocks.
+
+(* ------------------------------------------------------------------ 8. steady_nonlinear as a run of blocks *)
+Section Loop.
+Open Scope R_scope.
+Variables (flat : bool) (lg : list (option bool)) (kinds : list qkind) (eqs : list (expr RA)) (fixl fixc : list nat).
+
+Definition blk_lq (b : block) : list nat := sorted_minus (length kinds) (b_qids b) fixl.
+Definition blk_cq (b : block) : list nat := sorted_minus (length kinds) (b_qids b) fixc.
+Definition blk_eqs (b : block) : list (expr RA) := map (fun eid => nth eid eqs (EConst (miss RA))) (b_eids b).
+(* has_no_qids or has_no_equations *)
+Definition skipped (b : block) : bool :=
+  (match blk_lq b, blk_cq b with [], [] => true | _, _ => false end) || (match blk_eqs b with [] => true | _ => false end).
+
+(* the blocks that are actually handed to the solver, each with the oracle output it consumed *)
+Fixpoint pair_blocks (bs : list block) (orcs : list (list nat * list R)) : list mblock :=
+  match bs with
+  | [] => []
+  | b :: r =>
+      if skipped b then pair_blocks r orcs
+      else match orcs with
+           | [] => pair_blocks r []
+           | (wrt, g) :: orcs' => mkMB (blk_eqs b) (blk_lq b) (blk_cq b) wrt g :: pair_blocks r orcs'
+           end
+  end.
+
+Lemma solve_blocks_run bs orcs v obs :
+  fst (fst (fold_left (solve_block RA nobad flat lg kinds eqs fixl fixc) bs (v, orcs, obs))) =
+  run_mblocks flat lg kinds (pair_blocks bs orcs) v.
+Proof.
+  revert orcs v obs; induction bs as [|b r IH]; intros orcs v obs; [reflexivity|].
+  cbn [fold_left pair_blocks].
+  unfold solve_block at 2. fold (blk_lq b). fold (blk_cq b). fold (blk_eqs b). fold (skipped b).
+  destruct (skipped b).
+  - apply IH.
+  - destruct orcs as [|[wrt g] orcs'].
+    + apply IH.
+    + destruct (make_evaluator RA nobad flat lg v wrt (blk_lq b) (blk_cq b) (blk_eqs b)) as [v1 ev] eqn:E.
+      rewrite IH. cbn [run_mblocks fold_left]. f_equal.
+      unfold mb_step, the_v', the_v1, the_ev. cbn [mb_wrt mb_lq mb_cq mb_eqs mb_g]. now rewrite E.
+Qed.
+
+Lemma variant_eta (v : variant RA) : mkVariant RA (v_levels RA v) (v_changes RA v) = v.
+Proof. destruct v; reflexivity. Qed.
+
+End Loop.
+
+(* THEOREM (the whole of _steady_nonlinear for one variant): if every block that was handed to the solver is
+   well-formed and the solver's final guess has residual max-norm below tol in the state in which the block was
+   run (all_ok), and the blocks are in a block-triangular order, then EVERY equation of EVERY solved block holds
+   within tol on the path of the levels and changes that are finally stored, at date t (and t+1 when not flat) *)
+Theorem steady_nonlinear_sound flat lg kinds eqs p split blocks orcs v tol :
+  let res := steady_nonlinear RA nobad flat lg kinds eqs p split blocks orcs v in
+  let wrt := fst (fst (resolve_wrt kinds p)) in
+  let fixl := snd (fst (resolve_wrt kinds p)) in
+  let fixc := snd (resolve_wrt kinds p) in
+  let blocks1 := if split then blocks else [mkBlock (seq 0 (length eqs)) wrt] in
+  let mbs := pair_blocks kinds eqs fixl fixc blocks1 orcs in
+  vinv flat lg (length kinds) v -> all_ok flat lg kinds tol (length kinds) mbs v -> mtriangular mbs ->
+  forall b e, In b mbs -> In e (mb_eqs b) ->
+    eq_holds flat lg tol (mkVariant RA (r_levels RA res) (r_changes RA res)) e.
+Proof.
+  intros res wrt fixl fixc blocks1 mbs Hv Hok Ht b e Hb He.
+  assert (E : mkVariant RA (r_levels RA res) (r_changes RA res) = run_mblocks flat lg kinds mbs v).
+  { unfold res, steady_nonlinear. destruct (resolve_wrt kinds p) as [[w fl] fc] eqn:Ew.
+    cbn [fst snd] in *.
+    pose proof (solve_blocks_run flat lg kinds eqs fl fc (if split then blocks else [mkBlock (seq 0 (length eqs)) w]) orcs v []) as R.
+    destruct (fold_left _ _ _) as [[v' o] obs]. cbn [fst] in R. cbn [r_levels r_changes]. rewrite variant_eta. exact R. }
+  rewrite E. eapply model_blockwise; eauto.
+Qed.
+
+(* one block (split_into_blocks=False) is trivially triangular *)
+Lemma mtriangular_single (b : mblock) : mtriangular [b].
+Proof. simpl. split; [intros e _ b' Hb'; destruct Hb'|exact I]. Qed.
+
+(* the residual vectors the harness observes (o_resid of r_blocks) are the residuals along the run *)
+Section Trace.
+Open Scope R_scope.
+Variables (flat : bool) (lg : list (option bool)) (kinds : list qkind) (eqs : list (expr RA)) (fixl fixc : list nat).
+
+Fixpoint resid_trace (bs : list mblock) (v : variant RA) : list (list R) :=
+  match bs with
+  | [] => []
+  | b :: r => mb_resid flat lg b v :: resid_trace r (mb_step flat lg kinds b v)
+  end.
+
+Lemma solve_blocks_obs bs orcs v obs :
+  map (o_resid RA) (snd (fold_left (solve_block RA nobad flat lg kinds eqs fixl fixc) bs (v, orcs, obs))) =
+  map (o_resid RA) obs ++ resid_trace (pair_blocks kinds eqs fixl fixc bs orcs) v.
+Proof.
+  revert orcs v obs; induction bs as [|b r IH]; intros orcs v obs; [simpl; now rewrite app_nil_r|].
+  cbn [fold_left pair_blocks].
+  unfold solve_block at 2. fold (blk_lq kinds fixl b). fold (blk_cq kinds fixc b). fold (blk_eqs eqs b).
+  fold (skipped kinds eqs fixl fixc b).
+  destruct (skipped kinds eqs fixl fixc b).
+  - apply IH.
+  - destruct orcs as [|[wrt g] orcs'].
+    + apply IH.
+    + destruct (make_evaluator RA nobad flat lg v wrt (blk_lq kinds fixl b) (blk_cq kinds fixc b) (blk_eqs eqs b)) as [v1 ev] eqn:E.
+      rewrite IH. rewrite map_app, <- app_assoc. f_equal. cbn [map app resid_trace o_resid]. f_equal.
+      * unfold mb_resid, the_ev. cbn [mb_wrt mb_lq mb_cq mb_eqs mb_g]. now rewrite E.
+      * f_equal. unfold mb_step, the_v', the_v1, the_ev. cbn [mb_wrt mb_lq mb_cq mb_eqs mb_g]. now rewrite E.
+Qed.
+
+(* well-formedness of a block (everything in mb_ok except the solver's success) *)
+Definition mb_wf (nq : nat) (b : mblock) : Prop :=
+  NoDup (mb_wrt b) /\
+  (forall q, In q (mb_wrt b) -> (q < nq)%nat) /\
+  length (mb_g b) = (count_true (map (fun q => mem_nat q (mb_lq b)) (mb_wrt b)) +
+                     count_true (if flat then [] else map (fun q => mem_nat q (mb_cq b)) (mb_wrt b)))%nat /\
+  (forall q, In q (mb_wrt b) -> In q (mb_cq b) -> is_loggable (kind_of kinds q) = true) /\
+  (forall e q s, In e (mb_eqs b) -> In (q, s) (tokens RA e) -> (q < nq)%nat).
+
+Lemma trace_all_ok tol nq bs v :
+  Forall (mb_wf nq) bs -> Forall (Forall (fun r => Rabs r < tol)) (resid_trace bs v) ->
+  all_ok flat lg kinds tol nq bs v.
+Proof.
+  revert v; induction bs as [|b r IH]; intros v Hw Ht; simpl in *; auto.
+  inversion Hw as [|? ? (A & B & C & D & E) Hw']; subst. inversion Ht as [|? ? Hb Ht']; subst.
+  split; [repeat split; auto|apply IH; auto].
+Qed.
+
+End Trace.
+
+(* ... so the premise of steady_nonlinear_sound can be read off what is observed: the recorded residual vectors
+   (the harness compares them bit for bit with the implementation's eval_func(final_guess) and checks them against
+   the tolerance) *)
+Theorem steady_nonlinear_sound_observed flat lg kinds eqs p split blocks orcs v tol :
+  let res := steady_nonlinear RA nobad flat lg kinds eqs p split blocks orcs v in
+  let wrt := fst (fst (resolve_wrt kinds p)) in
+  let fixl := snd (fst (resolve_wrt kinds p)) in
+  let fixc := snd (resolve_wrt kinds p) in
+  let blocks1 := if split then blocks else [mkBlock (seq 0 (length eqs)) wrt] in
+  let mbs := pair_blocks kinds eqs fixl fixc blocks1 orcs in
+  vinv flat lg (length kinds) v -> Forall (mb_wf flat kinds (length kinds)) mbs -> mtriangular mbs ->
+  Forall (fun o => Forall (fun r => (Rabs r < tol)%R) (o_resid RA o)) (r_blocks RA res) ->
+  forall b e, In b mbs -> In e (mb_eqs b) ->
+    eq_holds flat lg tol (mkVariant RA (r_levels RA res) (r_changes RA res)) e.
+Proof.
+  intros res wrt fixl fixc blocks1 mbs Hv Hw Ht Hobs.
+  assert (E : map (o_resid RA) (r_blocks RA res) = resid_trace flat lg kinds mbs v).
+  { unfold res, mbs, blocks1, fixl, fixc, wrt, steady_nonlinear.
+    destruct (resolve_wrt kinds p) as [[w fl] fc] eqn:Ew. cbn [fst snd] in *.
+    pose proof (solve_blocks_obs flat lg kinds eqs fl fc (if split then blocks else [mkBlock (seq 0 (length eqs)) w]) orcs v []) as R.
+    destruct (fold_left _ _ _) as [[v' o] obs]. cbn [snd map app] in R. cbn [r_blocks]. exact R. }
+  apply steady_nonlinear_sound; auto.
+  apply trace_all_ok; auto.
+  match goal with |- Forall _ ?t => replace t with (map (o_resid RA) (r_blocks RA res)) by exact E end.
+  rewrite Forall_map. exact Hobs.
+Qed.
+
+(* ------------------------------------------------------------------ 9. flat mode: every date *)
+Section FlatEveryDate.
+Open Scope R_scope.
+Variables (flat : bool) (lg : list (option bool)) (kinds : list qkind) (tol : R) (nq : nat).
+
+Lemma run_mblocks_vinv bs v : vinv flat lg nq v -> all_ok flat lg kinds tol nq bs v -> vinv flat lg nq (run_mblocks flat lg kinds bs v).
+Proof.
+  revert v; induction bs as [|b r IH]; intros v Hv H; simpl in *; auto.
+  destruct H as [Hb Hr]. apply IH; auto. eapply mb_step_inv; eauto.
+Qed.
+
+Lemma Rln_0 : Rln 0 = 0.
+Proof. unfold Rpower.ln. destruct (Rlt_dec 0 0) as [H|H]; [exfalso; lra|reflexivity]. Qed.
+
+(* with flat changes (1 for log-variables, 0 for other variables, none for the rest) the path is constant *)
+Lemma vpath_flat v q s : v_changes RA v = flat_changes lg nq -> vpath lg v q s = vpath lg v q 0.
+Proof.
+  intros Hc. unfold vpath. rewrite Hc. rewrite !variant_cell_maybelog. f_equal.
+  assert (E : (if is_log lg q then Rln (vget RA (flat_changes lg nq) q) else vget RA (flat_changes lg nq) q) = 0).
+  { unfold flat_changes, vget. destruct (Nat.lt_ge_cases q nq) as [Hq|Hq].
+    - rewrite nth_map_seq by exact Hq. unfold is_log. destruct (nth q lg None) as [[|]|]; cbn; auto. apply ln_1.
+    - rewrite nth_overflow by (now rewrite map_length, seq_length). cbn. destruct (is_log lg q); auto. apply Rln_0. }
+  rewrite E. ring.
+Qed.
+
+(* THEOREM every_date (flat): in flat mode every equation that holds at the evaluated date holds at EVERY date *)
+Theorem eq_holds_flat_every_date v e : flat = true -> vinv flat lg nq v -> eq_holds flat lg tol v e ->
+  forall t, Rabs (eval RA (at_date (vpath lg v) t) e) < tol.
+Proof.
+  intros F (_ & _ & Hc) [H0 _] t. rewrite every_date_flat; auto.
+  intros q s _ u. apply vpath_flat. auto.
+Qed.
+
+End FlatEveryDate.
+
+Theorem steady_nonlinear_flat_every_date lg kinds eqs p split blocks orcs v tol :
+  let flat := true in
+  let res := steady_nonlinear RA nobad flat lg kinds eqs p split blocks orcs v in
+  let wrt := fst (fst (resolve_wrt kinds p)) in
+  let fixl := snd (fst (resolve_wrt kinds p)) in
+  let fixc := snd (resolve_wrt kinds p) in
+  let blocks1 := if split then blocks else [mkBlock (seq 0 (length eqs)) wrt] in
+  let mbs := pair_blocks kinds eqs fixl fixc blocks1 orcs in
+  vinv flat lg (length kinds) v -> all_ok flat lg kinds tol (length kinds) mbs v -> mtriangular mbs ->
+  forall b e, In b mbs -> In e (mb_eqs b) ->
+  forall t : Z, (Rabs (eval RA (at_date (vpath lg (mkVariant RA (r_levels RA res) (r_changes RA res))) t) e) < tol)%R.
+Proof.
+  intros flat res wrt fixl fixc blocks1 mbs Hv Hok Ht b e Hb He t.
+  apply eq_holds_flat_every_date with (flat := flat) (nq := length kinds); auto.
+  - unfold res, steady_nonlinear, mbs, blocks1, fixl, fixc, wrt in *.
+    destruct (resolve_wrt kinds p) as [[w fl] fc] eqn:Ew. cbn [fst snd] in *.
+    pose proof (solve_blocks_run flat lg kinds eqs fl fc (if split then blocks else [mkBlock (seq 0 (length eqs)) w]) orcs v []) as R.
+    destruct (fold_left _ _ _) as [[v' o] obs]. cbn [fst] in R. cbn [r_levels r_changes]. rewrite variant_eta, R.
+    eapply run_mblocks_vinv; eauto.
+  - eapply steady_nonlinear_sound; eauto.
+Qed.
+
+(* ------------------------------------------------------------------ 10. non-vacuity: concrete instances *)
+Section Examples.
+Open Scope R_scope.
+Ltac rcompute := cbv -[Rplus Rmult Rminus Rdiv Ropp Rinv IZR Rabs Rlt Rle Rpower.ln Rtrigo_def.exp Rpower].
+
+(* flat, stationary:  x = 1/2 x{-1} + 1 ; the solver's final guess is 2 *)
+Definition ex_flat_eq : expr RA := EAdd (ENeg (EVar 0 0)) (EAdd (EMul (@EConst RA (1/2)) (EVar 0 (-1))) (@EConst RA 1)).
+Definition ex_flat_v : variant RA := mkVariant RA [1] [0].
+Definition ex_flat_res := steady_nonlinear RA nobad true [Some false] [KEndog] [ex_flat_eq] (mkPlan [] [] [] []) false []
+                                           [([0%nat], [2])] ex_flat_v.
+Definition ex_flat_mbs := pair_blocks [KEndog] [ex_flat_eq] [] [] [mkBlock [0%nat] [0%nat]] [([0%nat], [2])].
+
+Lemma Rabs_small x : x = 0 -> Rabs x < 1 / 1000.
+Proof. intros ->. rewrite Rabs_R0. lra. Qed.
+
+Lemma example_flat :
+  vinv true [Some false] 1 ex_flat_v /\ Forall (mb_wf true [KEndog] 1) ex_flat_mbs /\ mtriangular ex_flat_mbs /\
+  Forall (fun o => Forall (fun r => Rabs r < 1 / 1000) (o_resid RA o)) (r_blocks RA ex_flat_res) /\
+  ex_flat_mbs = [mkMB [ex_flat_eq] [0%nat] [0%nat] [0%nat] [2]] /\
+  r_levels RA ex_flat_res = [2] /\ r_changes RA ex_flat_res = [0].
+Proof.
+  split; [|split; [|split; [|split; [|split; [|split]]]]].
+  - repeat split; intros; reflexivity.
+  - constructor; [|constructor]. unfold mb_wf. cbn. repeat split.
+    + constructor; [intros []|constructor].
+    + intros q [<-|[]]. lia.
+    + intros q [<-|[]] _. reflexivity.
+    + intros e q s [<-|[]] H. cbn in H. destruct H as [E|[E|[]]]; inversion E; lia.
+  - apply mtriangular_single.
+  - rcompute. constructor; [|constructor]. constructor; [|constructor]. apply Rabs_small. lra.
+  - reflexivity.
+  - rcompute. reflexivity.
+  - rcompute. reflexivity.
+Qed.
+
+(* growth, unit root with drift:  u = u{-1} + g  with g = 3 ; final guess level 5, change 3 *)
+Definition ex_rw_eq : expr RA := EAdd (ENeg (EVar 0 0)) (EAdd (EVar 0 (-1)) (EVar 1 0)).
+Definition ex_rw_v : variant RA := mkVariant RA [1; 3] [0; 0].
+Definition ex_rw_res := steady_nonlinear RA nobad false [Some false; None] [KEndog; KParam] [ex_rw_eq] (mkPlan [] [] [] []) false []
+                                         [([0%nat], [5; 3])] ex_rw_v.
+Definition ex_rw_mbs := pair_blocks [KEndog; KParam] [ex_rw_eq] [] [] [mkBlock [0%nat] [0%nat]] [([0%nat], [5; 3])].
+
+Lemma example_growth :
+  vinv false [Some false; None] 2 ex_rw_v /\ Forall (mb_wf false [KEndog; KParam] 2) ex_rw_mbs /\ mtriangular ex_rw_mbs /\
+  Forall (fun o => Forall (fun r => Rabs r < 1 / 1000) (o_resid RA o)) (r_blocks RA ex_rw_res) /\
+  ex_rw_mbs = [mkMB [ex_rw_eq] [0%nat] [0%nat] [0%nat] [5; 3]] /\
+  r_levels RA ex_rw_res = [5; 3] /\ r_changes RA ex_rw_res = [3; 0].
+Proof.
+  split; [|split; [|split; [|split; [|split; [|split]]]]].
+  - repeat split; try reflexivity; try (intros H; discriminate).
+  - constructor; [|constructor]. unfold mb_wf. cbn. repeat split.
+    + constructor; [intros []|constructor].
+    + intros q [<-|[]]. lia.
+    + intros q [<-|[]] _. reflexivity.
+    + intros e q s [<-|[]] H. cbn in H. destruct H as [E|[E|[E|[]]]]; inversion E; lia.
+  - apply mtriangular_single.
+  - rcompute. constructor; [|constructor]. constructor; [|constructor; [|constructor]]; apply Rabs_small; lra.
+  - reflexivity.
+  - rcompute. reflexivity.
+  - rcompute. reflexivity.
+Qed.
+
+End Examples.
+
+(* ------------------------------------------------------------------ 11. statements restated in props/C05.v *)
+Lemma c05_path_constant_stmt : forall l s, path_value false l 0 s = l /\ path_value true l 1 s = l.
+Proof. intros l s. split; [apply path_value_const_nonlog|apply path_value_const_log]. Qed.
+
+Lemma c05_guess_roundtrip_index_stmt : forall flat lg (v : variant RA) wrt level_qids change_qids eqs g,
+  let ev := the_ev flat lg v wrt level_qids change_qids eqs in
+  length (v_changes RA v) = length (v_levels RA v) ->
+  length g = (count_true (ev_bl RA ev) + count_true (ev_bc RA ev))%nat ->
+  mask_select (new_levels RA ev g) (ev_bl RA ev) = gl flat wrt level_qids g /\
+  (flat = false -> mask_select (new_changes RA ev g) (ev_bc RA ev) = gc wrt level_qids g /\
+                   g = gl flat wrt level_qids g ++ gc wrt level_qids g).
+Proof.
+  intros flat lg v wrt lq cq eqs g ev H1 H2. split; [now apply extract_update_levels|].
+  intros F. split; [now apply extract_update_changes|now apply guess_split].
+Qed.
+
+Lemma c05_guess_roundtrip_cells_stmt : forall flat lg kinds (v : variant RA) wrt level_qids change_qids eqs g,
+  let ev := the_ev flat lg v wrt level_qids change_qids eqs in
+  let v' := the_v' flat lg kinds v wrt level_qids change_qids eqs g in
+  length (v_changes RA v) = length (v_levels RA v) -> NoDup wrt ->
+  (forall q, In q wrt -> (q < length (v_levels RA v))%nat) ->
+  length g = (count_true (ev_bl RA ev) + count_true (ev_bc RA ev))%nat ->
+  (forall q, In q wrt -> In q change_qids -> is_loggable (kind_of kinds q) = true) ->
+  forall i, (i < length wrt)%nat ->
+    (In (nth i wrt O) level_qids ->
+       maybelog_level RA lg v' (nth i wrt O) = nth (rank (bl wrt level_qids) i) (gl flat wrt level_qids g) 0%R) /\
+    (flat = false -> In (nth i wrt O) change_qids ->
+       maybelog_change RA lg v' (nth i wrt O) = nth (rank (bc flat wrt change_qids) i) (gc wrt level_qids g) 0%R).
+Proof.
+  intros flat lg kinds v wrt lq cq eqs g ev v' H1 H2 H3 H4 H5 i Hi. split.
+  - intros Hin. now apply guess_roundtrip_levels.
+  - intros F Hin. now apply guess_roundtrip_changes.
+Qed.
+
+Lemma c05_other_cells_unchanged_stmt : forall flat lg kinds (v : variant RA) wrt level_qids change_qids eqs g,
+  let ev := the_ev flat lg v wrt level_qids change_qids eqs in
+  let v' := the_v' flat lg kinds v wrt level_qids change_qids eqs g in
+  length (v_changes RA v) = length (v_levels RA v) -> NoDup wrt ->
+  (forall q, In q wrt -> (q < length (v_levels RA v))%nat) ->
+  length g = (count_true (ev_bl RA ev) + count_true (ev_bc RA ev))%nat ->
+  (forall q, In q wrt -> In q change_qids -> is_loggable (kind_of kinds q) = true) ->
+  forall q,
+    (~ (In q wrt /\ In q level_qids) -> vget RA (v_levels RA v') q = vget RA (v_levels RA v) q) /\
+    (~ (flat = false /\ In q wrt /\ In q change_qids) ->
+       vget RA (v_changes RA v') q = vget RA (v_changes RA (if flat then zero_changes RA lg v else v)) q).
+Proof.
+  intros flat lg kinds v wrt lq cq eqs g ev v' H1 H2 H3 H4 H5 q. split.
+  - apply levels_untouched.
+  - intros H. unfold v'. rewrite changes_untouched by assumption. now rewrite v1_eq.
+Qed.
+
+Lemma c05_every_date_affine_stmt : forall (P : nat -> Z -> R) (e : expr RA), affine_expr P e ->
+  (eval RA (at_date P 0) e = 0%R -> eval RA (at_date P 1) e = 0%R -> forall t, eval RA (at_date P t) e = 0%R) /\
+  (forall tol, (Rabs (eval RA (at_date P 0) e) <= tol)%R -> (Rabs (eval RA (at_date P 1) e) <= tol)%R ->
+     forall t, (Rabs (eval RA (at_date P t) e) <= (1 + 2 * Rabs (IZR t)) * tol)%R).
+Proof. intros P e H. split; [now apply every_date_affine|intros tol; now apply every_date_affine_tol]. Qed.
+
+Lemma c05_linear_flat_stmt : forall (Am Bm Fm Gm : list (list R)) (Cv Hv xi y : list R),
+  length Bm = length Am -> length Cv = length Am ->
+  (forall i, (i < length Am)%nat -> length (nth i Am []) = length xi) ->
+  (forall i, (i < length Am)%nat -> length (nth i Bm []) = length xi) ->
+  length Gm = length Fm -> length Hv = length Fm ->
+  zeros (fst (lin_flat_residuals RA Am Bm Fm Gm Cv Hv xi y)) -> zeros (snd (lin_flat_residuals RA Am Bm Fm Gm Cv Hv xi y)) ->
+  (forall i, (i < length Am)%nat -> (rdot (nth i Am []) xi + rdot (nth i Bm []) xi + nth i Cv 0 = 0)%R) /\
+  (forall i, (i < length Fm)%nat -> (rdot (nth i Fm []) y + rdot (nth i Gm []) xi + nth i Hv 0 = 0)%R).
+Proof.
+  intros Am Bm Fm Gm Cv Hv xi y H1 H2 H3 H4 H5 H6 Z1 Z2. split.
+  - apply linear_flat_transition with (dxi := xi); auto.
+  - eapply linear_flat_measurement with (dxi := xi) (dy := y); eauto.
+Qed.
